@@ -213,16 +213,10 @@ Definition parse_inv : parser pyval := fun s =>
   do i <- mk_inv (Z.of_N ty) d true;
   Ret (i, s2).
 
-(* parse_satoshi_string: f.read(size) raises OverflowError when size does not fit an index (>= 2^63);
-   otherwise a short read is silent *)
-Definition parse_S : parser bytes := fun s =>
-  do '(n, r) <- parse_varint s;
-  if 2 ^ 63 <=? n then Raise E_OVERFLOW else Ret (readN n r).
-
 Definition parse_codec (k : codec) : parser pyval :=
   match k with
   | CI => lift parse_varint n2v
-  | CS => lift parse_S VBytes
+  | CS => lift parse_varstr VBytes
   | Ch => lift (read_be 2) n2v
   | CL => lift (read_le 4) n2v
   | CQ => lift (read_le 8) n2v
@@ -250,7 +244,7 @@ Definition step (st : lstate) : lstate :=
   match st with
   | Done _ => st
   | Running c acc s =>
-    if c =? 0 then Done (Ret (rev acc, s))
+    if c =? 0 then Done (Ret (rev_append acc [], s))     (* = rev acc, linear time *)
     else match elem s with
          | Ret (v, s') => Running (c - 1) (v :: acc) s'
          | Raise e => Done (Raise e)
